@@ -355,10 +355,31 @@ fn gen_shape(rng: &mut Rng) -> Shape {
     }
 }
 
+/// Sequences long enough to cross the 16-bit boundaries of the format's compact list forms.
+fn long_sequences(ctx: &Ctx, rng: &mut Rng) {
+    for len in [65_534usize, 65_535, 65_536, 65_537, 100_000, 131_072] {
+        let small: Vec<u8> = (0..len).map(|i| (i % 251) as u8).collect();
+        rt(ctx, "Vec<u8>/around-2^16-elements", &small);
+        let small16: Vec<u16> = (0..len).map(|i| (i % 200) as u16).collect();
+        rt(ctx, "Vec<u16>/around-2^16-small-elements", &small16);
+        let mut mixed: Vec<i64> = (0..len).map(|i| (i % 256) as i64).collect();
+        let at = rng.below(len);
+        mixed[at] = *rng.pick(&[-1i64, 256, 1 << 40]);
+        rt(ctx, "Vec<i64>/around-2^16-elements-one-of-them-wide", &mixed);
+        if len <= 65_537 {
+            rt(ctx, "struct/field-of-around-2^16-bytes", &(len as u32, small.clone(), "tail".to_string()));
+            rt(ctx, "Vec<bool>/around-2^16-elements", &vec![true; len]);
+            rt(ctx, "String/around-2^16-bytes", &"x".repeat(len));
+            rt(ctx, "Vec<()>/around-2^16-elements", &vec![(); len]);
+        }
+    }
+}
+
 pub fn run(ctx: &Ctx) {
-    ctx.rule("cases = values of a family of Rust types (all integer widths over their full ranges with boundary values, f32/f64, bool, char incl. non-BMP, String, Option<T>, (), tuples, Vec<T>, HashMap/BTreeMap with string and integer keys, plain structs, an ElixirStruct-derived struct, an enum with unit/newtype/tuple/struct variants, nestings), each through to_term/from_term and to_bytes/from_bytes; distinct = distinct (type, value class) labels exercised");
-    ctx.assume("excluded as the property says: directly nested options, Option<()>, NaN, variants or unit structs named nil/undefined/true/false");
+    ctx.rule("cases = values of a family of Rust types (all integer widths over their full ranges with boundary values, f32/f64, bool, char incl. non-BMP, String, Option<T>, (), tuples, Vec<T>, HashMap/BTreeMap with string and integer keys, plain structs, an ElixirStruct-derived struct, an enum with unit/newtype/tuple/struct variants, nestings, sequences and strings of around 2^16 elements), each through to_term/from_term and to_bytes/from_bytes; distinct = distinct (type, value class) labels exercised");
+    ctx.assume("excluded as the property says: directly nested options, Option<()>, NaN, an Option directly around a variant spelled nil/undefined");
     let mut rng = Rng::derive(ctx.seed, 15, 1);
+    long_sequences(ctx, &mut rng);
     // integers: boundaries of every width
     macro_rules! ints {
         ($t:ty, $name:expr) => {{
